@@ -89,7 +89,14 @@ func (e *env) label(b *types.Block, parent int, kind, origin, builder int) int {
 	bi := &blkInfo{b: b, trueID: string(hdrDigest(b)), annID: string(b.GetHash()), parent: parent, height: b.BlockNo(), kind: kind, origin: origin, builder: builder}
 	ok, err := simnode.CloneBlock(b).VerifySign()
 	bi.sigOK = ok && err == nil
-	bi.idOK = bi.trueID == bi.annID && bytes.Equal(types.CalculateTxsRootHash(b.GetBody().GetTxs()), b.GetHeader().GetTxsRootHash())
+	// A re-signed header with a wrong tx root owns its (new) identifier: whether the node drops it
+	// at the door or keeps it as a never-winning side block is its choice (execOK=false decides).
+	// An altered body under a *genuine* header does not hash to the identifier it is announced under.
+	bodyOK := bytes.Equal(types.CalculateTxsRootHash(b.GetBody().GetTxs()), b.GetHeader().GetTxsRootHash())
+	bi.idOK = bodyOK || kind == fTxRoot
+	// annID != trueID (a false identifier over genuine content) is judged in doDeliver: the node may
+	// either discard the block or treat it as the block its header digest names, but must never
+	// store or reference it under the announced identifier (raw scan in checkInvariants).
 	bi.execOK = kind == fNone
 	e.blocks = append(e.blocks, bi)
 	l := len(e.blocks) - 1
@@ -290,7 +297,7 @@ func (e *env) addBuilder(parent int) {
 }
 
 func (e *env) doBranch(parent int) {
-	if parent >= len(e.blocks) || (parent >= 0 && (e.blocks[parent].kind != fNone)) || len(e.builders) >= 4 {
+	if parent >= len(e.blocks) || (parent >= 0 && !e.validPath(parent)) || len(e.builders) >= 4 {
 		e.x.Noop()
 		return
 	}
@@ -474,6 +481,7 @@ func (e *env) propOr(p string) string {
 }
 
 type obs struct {
+	orphans int
 	best   string
 	root   string
 	height uint64
@@ -497,7 +505,7 @@ func (e *env) observe() obs {
 		h.Write([]byte(k))
 		h.Write(d[k])
 	}
-	return obs{best: string(b.BlockHash()), root: string(n.CS.SDB().GetRoot()), height: b.BlockNo(), nkeys: len(d), digest: string(h.Sum(nil))}
+	return obs{orphans: n.CS.VerifOrphanCount(), best: string(b.BlockHash()), root: string(n.CS.SDB().GetRoot()), height: b.BlockNo(), nkeys: len(d), digest: string(h.Sum(nil))}
 }
 
 func (e *env) doDeliver(l int) {
@@ -510,10 +518,23 @@ func (e *env) doDeliver(l int) {
 	simclock.Set(e.net.Start.Add(time.Duration(e.slot+3) * time.Second))
 	before := e.observe()
 	oldBest := e.best
-	e.modelDeliver(l)
 	var err error
 	pan := catch(func() { err = e.nut.AddBlock(b.b, "peer") })
-	x.Logf("deliver %d kind=%s h=%d err=%v", l, forgeName[b.kind], b.height, err)
+	if (b.kind == fID || b.kind == fTxRoot) && e.observe() == before {
+		// A false identifier over genuine content, or a re-signed header whose tx root does not match
+		// the body: the node may drop it at the door (nothing stored, not even as an orphan) or handle
+		// it under the digest of its own header; the model follows what the node did.
+		x.Count("dropped-at-the-door", 1)
+	} else {
+		if b.kind == fID && b.origin >= 0 {
+			// same header and body as the genuine block: the model knows that content by its own label
+			x.Count("false-id-handled-under-own-digest", 1)
+			e.modelDeliver(b.origin)
+		} else {
+			e.modelDeliver(l)
+		}
+	}
+	x.Logf("deliver %d kind=%s h=%d err=%v model-best=%d node-height=%d", l, forgeName[b.kind], b.height, err, e.best, e.nut.Best().BlockNo())
 	x.Count("delivered", 1)
 	if pan != "" {
 		x.Fail(e.propOr("C05"), "node-died-on-block", forgeName[b.kind], fmt.Sprintf("delivering block %d (%s) killed the node: %s", l, forgeName[b.kind], pan), e.step)
